@@ -200,7 +200,17 @@ fn run_history<A: Subject + AllPairs>(ctx: &mut Ctx, case: &Case, wl: &str) {
                                 let mut t: A = build_set(&m_before);
                                 apply_real(&mut t, step);
                             });
-                            if twin.is_ok() && guarded(|| read_bits(&a_before)).map_or(false, |b| b == m_before) {
+                            // "the dynamic and auto types never fail or panic for lack of capacity: any edit may grow them to
+                            // any length": a valid edit that makes a growable vector longer (or collects a new one) must not panic
+                            let grows = A::FIXED_CAP.is_none() && (m.len() > m_before.len() || matches!(step, Step::Collect(..)));
+                            if grows && matches!(step.class(), "edit" | "splice") {
+                                ctx.violation(
+                                    &format!("capacity:{}:growth-panicked", name),
+                                    &format!("{}|{}", tclass, name),
+                                    &prefix_case(),
+                                    format!("`{}` on a {} of {} bits (capacity {}, heap {:?}) panicked instead of growing the vector to {} bits: {}", step.enc(), A::NAME, m_before.len(), cap_before, heap_before, m.len(), p.short()),
+                                );
+                            } else if twin.is_ok() && guarded(|| read_bits(&a_before)).map_or(false, |b| b == m_before) {
                                 ctx.violation(
                                     &format!("capacity:{}:panicked", name),
                                     &format!("{}|{}", tclass, name),
